@@ -77,51 +77,75 @@ Proof. intro Hi. apply vnth_out. rewrite mapi_length. exact Hi. Qed.
 (* ---------------------------------------------------------------------------------------------------------- *)
 Definition is_junk (x : bid) : Prop := (JBASE <= x)%N.
 
-Lemma reconstruct_length F used d jn : length (fst (reconstruct F used d jn)) = length d.
+Lemma set1_length (d : list bid) j x : length (mapi (fun k y => if Nat.eqb k j then x else y) d) = length d.
+Proof. apply mapi_length. Qed.
+
+(* the three possible results at a failed position: the common encoded vector, a block of the encoded vector that sits at
+   another position (xor parity, moved block), or junk *)
+Lemma reconstruct_cases xor1 F used d jn :
+  let r := fst (reconstruct xor1 F used d jn) in
+  length r = length d
+  /\ (forall i, ~ In i F -> vnth r i = vnth d i)
+  /\ ((exists v rest, used = PEnc v :: rest /\ (forall p, In p rest -> exists v', p = PEnc v' /\ veq v v' = true)
+                      /\ agree_out F v d = true
+                      /\ forall i, In i F -> i < length d -> vnth r i = vnth v i)
+      \/ (exists v j i, used = [PEnc v] /\ F = [j] /\ (j < length d -> vnth r j = vnth v i))
+      \/ (forall i, In i F -> i < length d -> is_junk (vnth r i))).
 Proof.
-  unfold reconstruct. destruct used as [|[v|t|] rest]; simpl; try apply mapi_length.
-  destruct (forallb _ rest && agree_out F v d); simpl; apply mapi_length.
+  cbn zeta.
+  assert (J : let r := mapi (fun i x => if memn i F then (JBASE + jn + N.of_nat i)%N else x) d in
+              length r = length d /\ (forall i, ~ In i F -> vnth r i = vnth d i)
+              /\ (forall i, In i F -> i < length d -> is_junk (vnth r i))).
+  { cbn zeta. split; [apply mapi_length|]. split.
+    - intros i Hi. apply memn_false in Hi. destruct (Nat.lt_ge_cases i (length d)) as [Hl|Hl].
+      + rewrite vnth_mapi by exact Hl. rewrite Hi. reflexivity.
+      + rewrite vnth_mapi_out by exact Hl. rewrite vnth_out by exact Hl. reflexivity.
+    - intros i Hi Hl. rewrite vnth_mapi by exact Hl. apply memn_spec in Hi. rewrite Hi. unfold is_junk. lia. }
+  cbn zeta in J. destruct J as [J1 [J2 J3]].
+  assert (JJ : length (mapi (fun i x => if memn i F then (JBASE + jn + N.of_nat i)%N else x) d) = length d
+               /\ (forall i, ~ In i F -> vnth (mapi (fun i x => if memn i F then (JBASE + jn + N.of_nat i)%N else x) d) i = vnth d i)
+               /\ ((exists v rest, used = PEnc v :: rest /\ (forall p, In p rest -> exists v', p = PEnc v' /\ veq v v' = true)
+                      /\ agree_out F v d = true
+                      /\ forall i, In i F -> i < length d -> vnth (mapi (fun i x => if memn i F then (JBASE + jn + N.of_nat i)%N else x) d) i = vnth v i)
+                   \/ (exists v j i, used = [PEnc v] /\ F = [j] /\ (j < length d -> vnth (mapi (fun i x => if memn i F then (JBASE + jn + N.of_nat i)%N else x) d) j = vnth v i))
+                   \/ (forall i, In i F -> i < length d -> is_junk (vnth (mapi (fun i x => if memn i F then (JBASE + jn + N.of_nat i)%N else x) d) i)))).
+  { split; [exact J1|]. split; [exact J2|]. right. right. exact J3. }
+  unfold reconstruct. destruct used as [|[v|t|] rest]; cbn [fst]; try exact JJ.
+  destruct (forallb (fun p => match p with PEnc v' => veq v v' | _ => false end) rest) eqn:E1; cbn [andb]; [destruct (agree_out F v d) eqn:E2|].
+  - (* the good case *)
+    cbn [fst]. split; [apply mapi_length|]. split.
+    + intros i Hi. apply memn_false in Hi. destruct (Nat.lt_ge_cases i (length d)) as [Hl|Hl].
+      * rewrite vnth_mapi by exact Hl. rewrite Hi. reflexivity.
+      * rewrite vnth_mapi_out by exact Hl. rewrite vnth_out by exact Hl. reflexivity.
+    + left. exists v, rest. repeat split; auto.
+      * intros p Hp. rewrite forallb_forall in E1. specialize (E1 p Hp). destruct p as [v'|t|]; try discriminate. exists v'. auto.
+      * intros i Hi Hl. rewrite vnth_mapi by exact Hl. apply memn_spec in Hi. rewrite Hi. reflexivity.
+  - (* disagreement outside F *)
+    destruct xor1; [|exact JJ].
+    destruct F as [|j [|j2 F2]]; try exact JJ. destruct rest as [|p rest]; try exact JJ.
+    destruct (filter _ _) as [|i [|i2 t]]; try exact JJ.
+    destruct (N.eqb (vnth v j) 0 && N.eqb (vnth d i) 0); [|exact JJ].
+    cbn [fst]. split; [apply mapi_length|]. split.
+    + intros k Hk. assert (Hkj : k <> j) by (intro X; apply Hk; left; auto).
+      destruct (Nat.lt_ge_cases k (length d)) as [Hl|Hl].
+      * rewrite vnth_mapi by exact Hl. apply Nat.eqb_neq in Hkj. rewrite Hkj. reflexivity.
+      * rewrite vnth_mapi_out by exact Hl. rewrite vnth_out by exact Hl. reflexivity.
+    + right. left. exists v, j, i. repeat split; auto. intro Hl. rewrite vnth_mapi by exact Hl. rewrite Nat.eqb_refl. reflexivity.
+  - destruct xor1; [|exact JJ].
+    destruct F as [|j [|j2 F2]]; try exact JJ. destruct rest as [|p rest]; [|exact JJ]. cbn in E1. discriminate.
 Qed.
 
-Lemma reconstruct_outside F used d jn i : ~ In i F -> vnth (fst (reconstruct F used d jn)) i = vnth d i.
-Proof.
-  intro Hi. apply memn_false in Hi.
-  assert (J : vnth (mapi (fun i x => if memn i F then (JBASE + jn + N.of_nat i)%N else x) d) i = vnth d i).
-  { destruct (Nat.lt_ge_cases i (length d)) as [Hl|Hl].
-    - rewrite vnth_mapi by exact Hl. rewrite Hi. reflexivity.
-    - rewrite vnth_mapi_out by exact Hl. rewrite vnth_out by exact Hl. reflexivity. }
-  unfold reconstruct. destruct used as [|[v|t|] rest]; simpl; try exact J.
-  destruct (forallb _ rest && agree_out F v d); simpl; [|exact J].
-  destruct (Nat.lt_ge_cases i (length d)) as [Hl|Hl].
-  - rewrite vnth_mapi by exact Hl. rewrite Hi. reflexivity.
-  - rewrite vnth_mapi_out by exact Hl. rewrite vnth_out by exact Hl. reflexivity.
-Qed.
-
-(* the two possible results at a failed position: the common encoded vector, or junk *)
-Lemma reconstruct_cases F used d jn :
-  (exists v rest, used = PEnc v :: rest /\ (forall p, In p rest -> exists v', p = PEnc v' /\ veq v v' = true)
-                  /\ agree_out F v d = true
-                  /\ forall i, In i F -> i < length d -> vnth (fst (reconstruct F used d jn)) i = vnth v i)
-  \/ (forall i, In i F -> i < length d -> is_junk (vnth (fst (reconstruct F used d jn)) i)).
-Proof.
-  assert (J : forall i, In i F -> i < length d ->
-              is_junk (vnth (mapi (fun i x => if memn i F then (JBASE + jn + N.of_nat i)%N else x) d) i)).
-  { intros i Hi Hl. rewrite vnth_mapi by exact Hl. apply memn_spec in Hi. rewrite Hi. unfold is_junk. lia. }
-  unfold reconstruct. destruct used as [|[v|t|] rest]; simpl; try (right; exact J).
-  destruct (forallb _ rest) eqn:E1; simpl; [|right; exact J].
-  destruct (agree_out F v d) eqn:E2; simpl; [|right; exact J].
-  left. exists v, rest. repeat split; auto.
-  - intros p Hp. rewrite forallb_forall in E1. specialize (E1 p Hp). destruct p as [v'|t|]; try discriminate.
-    exists v'. auto.
-  - intros i Hi Hl. rewrite vnth_mapi by exact Hl. apply memn_spec in Hi. rewrite Hi. reflexivity.
-Qed.
+Lemma reconstruct_length xor1 F used d jn : length (fst (reconstruct xor1 F used d jn)) = length d.
+Proof. apply (reconstruct_cases xor1 F used d jn). Qed.
+Lemma reconstruct_outside xor1 F used d jn i : ~ In i F -> vnth (fst (reconstruct xor1 F used d jn)) i = vnth d i.
+Proof. apply (reconstruct_cases xor1 F used d jn). Qed.
 
 (* all used levels encode v and the buffer agrees with v outside F: the result is v on F *)
-Lemma reconstruct_good F used d jn v :
+Lemma reconstruct_good xor1 F used d jn v :
   used <> [] -> (forall p, In p used -> exists v', p = PEnc v' /\ veq v v' = true) ->
   agree_out F v d = true ->
-  snd (reconstruct F used d jn) = jn /\
-  forall i, i < length d -> vnth (fst (reconstruct F used d jn)) i = if memn i F then vnth v i else vnth d i.
+  snd (reconstruct xor1 F used d jn) = jn /\
+  forall i, i < length d -> vnth (fst (reconstruct xor1 F used d jn)) i = if memn i F then vnth v i else vnth d i.
 Proof.
   intros Hne Hall Hag. destruct used as [|p rest]; [congruence|].
   destruct (Hall p (or_introl eq_refl)) as [v0 [E0 Hv0]]. subst p.
